@@ -467,6 +467,8 @@ def main():
             if dk not in seen:
                 seen.add(dk)
                 uniq.append(c)
+        grp = lambda c: '%s/%s' % (c['cls'], (c.get('detail') or '').split(':')[0])
+        chk.extra.setdefault('case_groups_lost_to_deduplication', {})[fam.name] = sorted({grp(c) for c in cases} - {grp(c) for c in uniq})
         cases = uniq
         results = p21run.run_many(lib, cases, chunksize=16)
         badbase = set()
